@@ -64,7 +64,7 @@ def classify(diags, labels, funcs, lines):
             undec.append(msg); continue
         if d.get("code") or not any(p in low for p in VERIF_FAIL_PAT):
             hard.append({"message": msg, "rendered": d.get("rendered", "")[:1500],
-                         "line": (d.get("spans") or [{}])[0].get("line_start")})
+                         "line": ([sp for sp in (d.get("spans") or []) if sp.get("is_primary")] or d.get("spans") or [{}])[0].get("line_start")})
             continue
         spans = d.get("spans", [])
         label, clause_line, site_line = None, None, None
